@@ -38,3 +38,107 @@ check('C01', 'translation_validation',
       'compiler+engine against an independent reference SLD interpreter (answers, order, multiplicity, aliasing).',
       _CTL_NOTE + ' STO cases (a head unification that builds a cyclic term) are excluded as unspecified.',
       'contract-based deductive verification of compile_body; bounded differential translation validation for the clause level', 'DESIGN 5/C01')
+
+_ENG_NOTE = ('Trusted: pyvc VC generator and heap model (spec/heap.smt2), SMT solvers, assumed contracts of YP.atom/makelist/chain_functions/'
+             'inspect.signature/exec/sys.setrecursionlimit, generator protocol (A-PY-GEN), prompt finalisation (A-REFCOUNT), rely condition at '
+             'yields (environment uses the engine API only), A-RN-INV, partial correctness only. Bounded stand-ins are labelled bounded.')
+_VC = 'contract-based deductive verification: sidecar contracts + symbolic execution of the real AST to SMT VCs (z3/cvc5)'
+check('C03', 'proof',
+      'Store level: every generator of the unification family is proved to leave, on each of the three continuations of each yield (resume, close, '
+      'throw) and on failure, exactly the store it found minus its own footprint. Discipline level: query, call, once, findall, \\=, retract, '
+      '_match_all_clauses, evaluate_bounded are proved to write no binding cell themselves, to have only their lexically active iterators suspended '
+      'at every yield and to have finalised every iterator they own on every exit (normal, close, throw, exception raised by a predicate at any '
+      'answer). Emitted code obeys the same discipline by template (iterators only as for-iterables). The step to "every variable is restored" is the '
+      'meta-lemma of DESIGN 5/C03 (paper) under A-REFCOUNT.',
+      _ENG_NOTE, _VC + '; generator calculus with three continuations per yield; AST template obligations; bounded abandonment enumeration', 'DESIGN 5/C03')
+check('C04', 'proof',
+      'Frame obligations for every function of the four modules, decided on the real AST: no global statement, no store or mutating call through a '
+      'module-level name, module and class bodies hold only definitions and immutable constants, mutable defaults/module objects never mutated, '
+      'per-instance state created from fresh displays in __init__/clear, scripts executed in a copy of the instance context. Non-interference then '
+      'follows from the frame rule (paper). Threads are not modelled.',
+      'Trusted: the AST frame checker (vf/props/compilerp.py), A-PY-ATTR (no monkey-patching). The thread clause rests on the GIL and is only exercised by a bounded two-thread run.',
+      'frame/ownership contracts checked on the real AST (modifies-sets), plus bounded two-engine interleaving exploration', 'DESIGN 5/C04')
+check('C07', 'proof',
+      'assert_fact, asserta, assertz, retract, retractall, _clauses, _update_predicate, _find_predicates, match_dynamic, _match_all_clauses and the '
+      'copy functions are verified against a heap model of the database (key -> list reference -> sequence of facts): assert publishes old++[copy] '
+      '(resp. [copy]++old) as a new list and changes nothing else; retractall publishes exactly the non-matching facts (loop invariant sfilter); each '
+      'answer of retract publishes current minus the matched, still present fact; enumeration follows list order to exhaustion; unknown keys are '
+      'empty; non-callable arguments raise YPException. clear() is covered by bounded histories.',
+      _ENG_NOTE, _VC + ' with a heap model and loop invariants; bounded database histories vs a list model', 'DESIGN 5/C07')
+check('C08', 'proof',
+      'YP.query is verified to enumerate the facts of name/len(args) read at its start, then - unless the name is an API name - the function stored '
+      'under name_<n>, else name_n, looked up after the facts (late binding), called with the caller\'s argument list; register_function writes exactly '
+      'the one key; load_script_from_string is verified with a loop invariant over the keys of the executed context (overwrite replaces, combine '
+      'chains old before new, other keys untouched, engine unchanged if compile/exec raises); key strings are injective (SMT strings).',
+      _ENG_NOTE, _VC + '; string-theory obligations for key naming; bounded register/load/assert/clear histories', 'DESIGN 5/C08')
+check('C09', 'proof',
+      'call, once, findall, builtin_neq and builtin_eq are verified: call delegates to query(name of the dereferenced goal, its args ++ extra) for atom, '
+      'compound and run-time bound goals and raises only for non-callable goals; once yields at most the first answer of call(goal) and ends quietly '
+      'when there is none; findall yields once iff the bag unifies with makelist of the collected copies, after the goal iterator is exhausted; \\= '
+      'yields once with no iterator suspended iff query(=) has no answer; = is su (C02).',
+      _ENG_NOTE, _VC + '; bounded differential runs of meta-call programs', 'DESIGN 5/C09')
+check('C10', 'proof',
+      'Typestate obligations proved on the real body of _compile_prolog_from_stream: lexer and parser get an error listener whose syntaxError is a '
+      'single raise before program() runs, and the token after the parsed program must be EOF on every path to the return; main turns CompilerError '
+      'into a CLI error. That ANTLR then recognises exactly L(prolog.g4) is assumed and bounded-checked against an independent recogniser.',
+      'Assumed: A-EXT-ANTLR. Trusted: the typestate checker (AST), the independent recogniser standin/g4reader.py.',
+      'typestate contract on the ANTLR objects checked on the real AST; bounded differential against an independent grammar recogniser', 'DESIGN 5/C10')
+check('C11', 'proof',
+      'Lexical sinks verified with SMT strings on the real visitor code (emitted variable names are identifiers distinct from reserved, engine and '
+      'generated names; renaming injective; head names match the identifier pattern; numerals emitted as str(int(text))), provenance and template '
+      'obligations on the generator AST, size guards (block and bracket nesting) present. The shape of the whole output (parses, one generator def '
+      'per clause-head key, loads) is decided by bounded stand-ins modulo A-PYGRAMMAR.',
+      'Assumed: A-PYGRAMMAR, A-CPY-LIMITS, A-PY-STR (incl. str(n) is a decimal literal), A-EXT-ANTLR token rules. Trusted: AST checkers, SMT string solvers.',
+      _VC + ' with the SMT string theory; AST provenance/template obligations; bounded boundary-program loading', 'DESIGN 5/C11')
+check('C12', 'proof',
+      'Provenance: every read of source-derived text in the compiler flows into a lexical sink (repr literal, integer literal, checked identifier); '
+      'names of called functions in emitted code are compiler literals; the $CUTIF marker is rejected in source; variables cannot capture engine names '
+      '(visitVARIABLE contract); the script context is a per-instance copy with empty __builtins__; YP.query refuses API names for definitions.',
+      'Assumed: A-CPY-REPR, A-PYGRAMMAR, A-EXT-EXEC. Trusted: AST checkers, SMT string solvers.',
+      'taint/provenance obligations on the real AST + string-theory contracts on the sinks; bounded hostile-atom corpus', 'DESIGN 5/C12')
+check('C13', 'proof',
+      '_copy_term/copy_terms are verified against the specification fresh_copy (resolve, then rename every unbound variable consistently to a new id); '
+      'assert_fact stores a fresh copy, Answer.match unifies with a fresh copy per use; L-RN-FRESH (proved by induction): a fresh copy contains only '
+      'variables that did not exist before, so facts share no cell with callers or with each other.',
+      _ENG_NOTE, _VC + ' with spec-level induction lemmas; bounded differential runs', 'DESIGN 5/C13')
+check('C14', 'proof',
+      'Ownership obligations on every list mutation in the database functions (only unpublished lists are mutated in place); under the rely condition '
+      'an enumeration is proved to iterate the list object it read at its start with unchanged contents; a suspended retract removes a fact only if '
+      'it is still present in the current list and publishes current minus that fact, so concurrent additions survive and nothing is returned twice. '
+      'Termination of update loops follows from the finite snapshot (not machine-checked).',
+      _ENG_NOTE, _VC + ' with ownership (published-set) ghost state and rely/guarantee at yields; bounded interleaving histories', 'DESIGN 5/C14')
+check('C15', 'proof',
+      'get_value (module function and the three methods) is verified to return resolve(t, store), the fully dereferenced term, for every store; '
+      'Variable.unify stores the resolved value; findall and assert_fact export fresh copies of resolved terms. to_python is decided by the bounded '
+      'stand-in only.',
+      _ENG_NOTE, _VC + '; bounded binding-history exploration for to_python and value stability', 'DESIGN 5/C15')
+check('C16', 'proof',
+      'unquoteString verified with a loop invariant in the SMT string theory (result = text between the quotes with every backslash removed); `_` '
+      'numbering verified (visitVARIABLE); atoms unify by name (Atom.unify against su). The mapping literal -> AST -> constructor calls -> run-time '
+      'term and to_python are decided by the bounded stand-in (random Unicode literals in four positions, independent renderer).',
+      'Assumed: A-EXT-ANTLR (token texts), A-CPY-REPR, A-EXT-REDUCE. The larger part of this property is decided by the bounded stand-in.',
+      _VC + ' (string loop invariant); bounded literal round-trip translation validation', 'DESIGN 5/C16')
+check('C17', 'proof',
+      'evaluate_bounded is verified for all queries and projection functions: the recursion limit equals its entry value on every exit edge (normal '
+      'and exceptional), RecursionError never escapes (setrecursionlimit may itself raise: modelled), the result holds one projected value per '
+      'consumed answer in order, and the query iterator is never left suspended. Where the depth limit strikes is CPython behaviour (bounded only).',
+      _ENG_NOTE, _VC + ' with exceptional control-flow edges (try/except/finally); bounded fault enumeration', 'DESIGN 5/C17')
+check('C18', 'proof',
+      'Self-composition by congruence, decided on the real AST: no function reachable from the compile entry points uses a choice primitive '
+      '(iteration over sets, hash, id, random, time, environment) or reads module-/class-level mutable state; all stateful objects and counters are '
+      'created per call. Debug streams (not the returned text) print object addresses and are outside the statement.',
+      'Assumed: ANTLR runtime deterministic, dict insertion order, str/list primitives functional. Trusted: the AST checker.',
+      'determinism contracts (no choice primitive, frame conditions) checked on the real AST; bounded hash-seed/process differential', 'DESIGN 5/C18')
+check('C19', 'proof',
+      'Non-interference of the debug flags decided on the real AST: the flags are read only in the guards of the _debug methods (which write "# "+line '
+      'per line), the visitor constructor and the header choice (comment text in both alternatives); debug arguments and __str__ methods are '
+      'effect-free; the tracing wrapper returns the wrapped result; CLI and library share _compile_prolog_from_stream and UTF-8 decoding; syntax '
+      'errors become CLI errors with position.',
+      'Assumed: A-EXT-CLICK, str.splitlines (A-PY-STR). Trusted: the AST checker.',
+      'information-flow (taint) contracts on the debug flags checked on the real AST; bounded CLI-vs-library differential', 'DESIGN 5/C19')
+check('C20', 'proof',
+      'Modularity made explicit: every consumer of a predicate iterator (query, call, once, findall, \\=, evaluate_bounded, emitted loops) is verified '
+      'against the predicate contract only. Proved on the real code: query calls function(*args) with the caller\'s argument list, no consumer '
+      'branches on a yielded value, the unify family yields the constant False, no try statement lies between a predicate iterator and its consumer, '
+      'emitted loops never read their loop variable, register_function writes the documented key.',
+      _ENG_NOTE, _VC + '; interface (no-inspection, no-try) obligations on the AST; bounded native/compiled swap differential', 'DESIGN 5/C20')
